@@ -478,11 +478,9 @@ func valueCat(n *Node) string {
 		}
 		var cs []string
 		for _, e := range n.O {
-			k := "k"
+			k := keyLabel(e.Key)
 			if e.F {
 				k = "f"
-			} else if e.Key != strings.ToLower(e.Key) {
-				k = "K"
 			}
 			cs = append(cs, k+"="+valueCat(e.V))
 		}
